@@ -77,11 +77,19 @@ func (x *ExprEnv) term(text string) (tval, error) {
 	return v, nil
 }
 
-type encMark struct{ lines, obs, axioms int }
+type encMark struct{ lines, obs, axioms, undo int }
 
-func (e *Enc) mark() encMark { return encMark{len(e.lines), len(e.obs), len(e.axioms)} }
+func (e *Enc) mark() encMark { return encMark{len(e.lines), len(e.obs), len(e.axioms), len(e.undo)} }
 
+// rollback drops what was emitted since the mark, and forgets the memo entries created since then (their
+// defining assumptions are among the dropped lines: a later use must emit them again).
 func (e *Enc) rollback(m encMark) {
+	for i := len(e.undo) - 1; i >= m.undo; i-- {
+		e.undo[i]()
+	}
+	if len(e.undo) > m.undo {
+		e.undo = e.undo[:m.undo]
+	}
 	if len(e.lines) > m.lines {
 		e.lines = e.lines[:m.lines]
 	}
@@ -314,10 +322,17 @@ func (x *ExprEnv) binary(n *ast.BinaryExpr) tval {
 		return tval{t: "(and " + a.t + " " + b.t + ")", typ: bt}
 	case token.LOR:
 		return tval{t: "(or " + a.t + " " + b.t + ")", typ: bt}
-	case token.EQL:
+	case token.EQL, token.NEQ:
+		if !a.isNil && !b.isNil && a.typ != nil && b.typ != nil && a.typ != untypedInt && b.typ != untypedInt {
+			if sa, sb := e.d.sortOf(a.typ), e.d.sortOf(b.typ); sa != sb {
+				// e.g. argN of a call whose parameter list changed: the clause no longer binds
+				return x.errf("comparison of %s with %s", a.typ, b.typ)
+			}
+		}
+		if n.Op == token.NEQ {
+			return tval{t: "(not " + x.eqTerm(a, b) + ")", typ: bt}
+		}
 		return tval{t: x.eqTerm(a, b), typ: bt}
-	case token.NEQ:
-		return tval{t: "(not " + x.eqTerm(a, b) + ")", typ: bt}
 	case token.LSS, token.LEQ, token.GTR, token.GEQ:
 		if srt == "Str" {
 			e.d.decl("strord", "(Str) Int")
@@ -516,6 +531,11 @@ func (x *ExprEnv) call(n *ast.CallExpr) tval {
 				delete(x.vars, v.Name)
 			}
 			return tval{t: fmt.Sprintf("(forall ((%s %s)) (=> %s %s))", qn, e.d.sortOf(mu.Key()), dom, body.t), typ: bt}
+		case "quoted":
+			// quoted(s): the Go-quoted rendering of s (what %q prints)
+			a := x.tr(n.Args[0])
+			e.d.decl("strquote", "(Str) Str")
+			return tval{t: "(strquote " + a.t + ")", typ: a.typ}
 		case "samearray":
 			a, b := x.tr(n.Args[0]), x.tr(n.Args[1])
 			return tval{t: "(and (not (= (sarr " + a.t + ") 0)) (= (sarr " + a.t + ") (sarr " + b.t + ")))", typ: bt}
